@@ -239,9 +239,52 @@ def install_universal(ctx):
     return probes.detach_all
 
 
+def wl_reader(ctx, idx, rng):
+    """The same conversion through its second public entry point: a reader of real-sampled data hands back the analytic baseband
+    of the whole stretch it was asked for (not of the file's frames one by one)."""
+    import os
+    import baseband
+    from ..core import REPO
+    path = os.path.join(REPO, "tests", "data", "sample.vdif")
+    with probes.quiet():
+        r = pb.readers.BasebandReader(path, lower_sideband=bool(idx % 2))
+    L = len(r)
+    n = int(gen.pick(rng, [1, 2, 3, 16, 1000, 10001, 12000, 15000, L]))
+    off = int(rng.integers(0, L - n + 1))
+    how = "dask_read" if idx % 4 >= 2 else "read"
+    ctx.describe_case({"reader": "sample.vdif", "offset": off, "n": n, "how": how, "lsb": bool(idx % 2)})
+    sg, exc = ctx.call("real_to_complex", getattr(r, how), off, n, where=f"BasebandReader.{how}({off}, {n})")
+    if exc is not None:
+        return
+    with baseband.open(path, "rs") as fh:
+        fh.seek(2 * off)
+        raw = fh.read(2 * n)
+    want = reference(raw.astype(np.float64), 0)
+    if idx % 2:
+        want = want.conj()
+    with probes.quiet():
+        got = gen.np_data(sg).astype(np.complex128)
+    ctx.count("oracle[reader_r2c]")
+    if got.shape != want.shape:
+        ctx.violation("real_to_complex", f"reader returned shape {got.shape}, expected {want.shape}", None, {"what": "reader_shape"})
+        return
+    nrm = float(np.sqrt(np.sum(np.abs(raw.astype(np.float64)) ** 2))) + 1e-300
+    err = float(np.sqrt(np.sum(np.abs(got - want) ** 2)))
+    tol = 2.0 ** -19 * (1 + math.log2(2 * n + 2) / 8) * nrm
+    ctx.stat_max("reader_err_over_tol", err / tol)
+    if err > tol:
+        ctx.violation("real_to_complex", f"BasebandReader.{how}({off}, {n}) of real-sampled data differs from the analytic baseband of raw samples "
+                                         f"[{2 * off}:{2 * off + 2 * n}]: l2 error {err:.3e} > tol {tol:.3e} (= {err / nrm:.3e} ||x||_2)", None,
+                      {"what": "reader_value", "n_over_frame": n > 10000})
+    ctx.bucket("reader", n, how, idx % 2)
+    del r
+    import gc
+    gc.collect()
+
+
 def workloads(ctx):
     q = ctx.tier == "quick"
-    return [("R", 1, wl_R), ("r2c", 1200 if q else 40000, wl_r2c), ("long", 24 if q else 480, wl_long)]
+    return [("R", 1, wl_R), ("r2c", 1200 if q else 40000, wl_r2c), ("long", 24 if q else 480, wl_long), ("reader", 24 if q else 240, wl_reader)]
 
 
 def setup(ctx):
